@@ -110,6 +110,20 @@ fn build_group(tape: &[u8], stats: &mut GenStats, n_variants: usize) -> Option<G
                 labels.push(format!("assignment#bogus op={}", u.op_name));
             }
         }
+        // enum strings: every schema value and a few others (the transparent newtype of an extern
+        // enum and a generated enum must agree on acceptance and on the string written back;
+        // generated enums must also agree on which strings are schema values, i.e. not `Other`)
+        for (ui, u) in units.iter().enumerate() {
+            for (gname, _) in &u.enums {
+                let e = base.world.schema.enums.iter().find(|e| &e.name == gname).unwrap().clone();
+                let mut strings: Vec<Value> = e.values.iter().map(|v| json!(v)).collect();
+                strings.extend([json!("ZzNotAValue"), json!(""), json!(7)]);
+                for sv in strings {
+                    labels.push(format!("enum {} {}", gname, sv));
+                    base.case.vectors.push(Vector { unit: ui, kind: "enum".into(), name: gname.clone(), input: sv });
+                }
+            }
+        }
         let n = base.case.vectors.len();
         items.push(Item { base, expects: vec![Expectation::Any; n], tape: tape.to_vec(), nt: vec![None; n], labels, depends: vec![] });
     }
@@ -147,8 +161,15 @@ fn compare(report: &mut Report, items: &[&Item], results: &[&crate::e1::CaseResu
             if nontrivial {
                 report.nontrivial.insert(fnv_str(&[&base.base.case.schema_text, &base.base.case.document, &base.base.case.vectors[vi].input.to_string(), &serde_json::to_string(&it.base.case.opts).unwrap()]));
             }
+            let is_enum = base.base.case.vectors[vi].kind == "enum";
             let same = class(a) == class(b)
                 && match (a, b) {
+                    (VecResult::Ok(x), VecResult::Ok(y)) if is_enum => {
+                        let gname = &base.base.case.vectors[vi].name;
+                        let generated_in_both = !base.base.case.opts.extern_enums.contains(gname) && !it.base.case.opts.extern_enums.contains(gname);
+                        let other = |v: &Value| v["dbg"].as_str().map(|d| d.starts_with("Other(")).unwrap_or(false);
+                        json_eq(&x["ser"], &y["ser"]) && (!generated_in_both || other(x) == other(y))
+                    }
                     (VecResult::Ok(x), VecResult::Ok(y)) => json_eq(x, y),
                     _ => true,
                 };
